@@ -125,6 +125,11 @@ void execute_c01(const Plan &plan, Verdict &v) {
                     break;
                 }
         }
+        if (g_collect) {
+            uint64_t sig = 0;
+            for (auto &c : w.calls) sig = mix64(sig * 31 + (uint64_t) c.len * 7 + (uint64_t) c.n_msgs + (c.overrun ? 1000003 : 0));
+            g_sets.add("interleaving", sig);
+        }
         v.trace_hash = w.hash();
         v.nontrivial = w.nontrivial;
         v.sim_ms = sim.now;
